@@ -93,7 +93,12 @@ def slice_items(draw, T, vals):
             else:
                 k = draw(st.integers(0, 3))
                 out.append([draw(st.one_of(st.integers(-m, m - 1), st.integers(-m, m - 1), st.none())) if m > 0 else None for _ in range(k)] if m > 0 else [])
-        return [{"k": "jagged", "data": out}]
+        item = {"k": "jagged", "data": out}
+        if draw(st.booleans()):
+            # the index array in a generated physical encoding as well (added after the seeded change C01-b - a jagged
+            # boolean mask whose offsets do not start at 0 - was missed): node class, index width, offset origin, option encoding
+            item["desc"] = draw(gen.encode(_jagged_type(out), out, JCFG))
+        return [item]
     if mode == "missing" and n0 > 0:
         k = draw(st.integers(1, 4))
         data = [draw(st.one_of(st.integers(-n0, n0 - 1), st.none())) for _ in range(k)]
@@ -196,14 +201,17 @@ def realise(items, buffers):
                     c += 1
             out.append(L.IndexedOptionArray64(L.Index64(np.array(index, dtype=np.int64)), L.NumpyArray(np.array(present, dtype=np.int64))))
         elif k == "jagged":
-            out.append(D.build(_jagged_desc(it["data"])))
+            out.append(D.build(it["desc"] if "desc" in it else _jagged_desc(it["data"])))
         else:
             out.append(ops.realise_slice_item(it))
     return tuple(out) if len(out) != 1 else out[0]
 
 
-def _jagged_desc(data):
-    """ListOffsetArray64 (option-wrapped where entries are None) of ints/bools (option-wrapped where None)"""
+JCFG = gen.Cfg(max_depth=2, leaf_dtypes=("int64", "bool"), records=False, unions=False, strings=False, unknown=False, regular=False,
+               numpy_nd=False, option_encodings=("IndexedOptionArray64", "IndexedOptionArray32", "ByteMaskedArray", "BitMaskedArray"))
+
+
+def _jagged_type(data):
     anybool = any(isinstance(k, bool) for v in data if v is not None for k in v)
     leaf = ["prim", "bool" if anybool else "int64"]
     inner_has_none = any(k is None for v in data if v is not None for k in v)
@@ -211,7 +219,12 @@ def _jagged_desc(data):
     T = ["list", ET]
     if any(v is None for v in data):
         T = ["option", T]
-    return gen.canonical(T, data)
+    return T
+
+
+def _jagged_desc(data):
+    """ListOffsetArray64 (option-wrapped where entries are None) of ints/bools (option-wrapped where None)"""
+    return gen.canonical(_jagged_type(data), data)
 
 
 def numpy_oracle(T, vals, items):
